@@ -668,7 +668,7 @@ func c20Levels(tier string) []core.Level {
 				}
 			}
 		}},
-		{Name: "one injected syntax error (unknown tag, illegal character x7, surplus literal x2) at every token boundary: rejected and located at that token", Gen: func(emit func(core.Case)) {
+		{Name: "one injected syntax error (unknown tag, illegal character x14 (7 of them outside ASCII), surplus literal x2) at every token boundary: rejected and located at that token", Gen: func(emit func(core.Case)) {
 			for _, it := range items {
 				for _, pre := range []string{"", "t1\nt2 {{ a }}\n"} {
 					src := pre + it.src
@@ -722,7 +722,7 @@ func c20Levels(tier string) []core.Level {
 							}
 						}
 						_ = i
-						for _, ch := range []string{"$", "@", ";", "\\", "!", "^", "&"} {
+						for _, ch := range []string{"$", "@", ";", "\\", "!", "^", "&", "\u00e9", "\u4e2d", "\u00a3", "\u00ea", "\u00b5", "\u201c", "\U0001F600"} {
 							ins(" "+ch+" ", 1, "illegal character")
 						}
 						if t.kind == kClose {
